@@ -25,7 +25,7 @@ var R = hx.NewRecorder("C15", "cases = (endpoint kind: GMSSL client | GMSSL-only
 	"oracle = Handshake() returns (quiescence of the in-memory transport turns waiting into EOF; a read-after-EOF counter catches spinning), returns an error for every true deviation, HandshakeComplete stays false, no panic; legal variations (fragmented or coalesced messages, unknown ticket) must still succeed; non-trivial = deviation applied after at least one valid message or in the first message; distinct by hash of the plan")
 
 func TestMain(m *testing.M) {
-	R.Require("client_stops_after_cke", "cke_sent_at:0300", "cke_sent_at:0301", "cke_sent_at:0302", "cke_sent_at:0303", "junk_certificate_verify", "jcv_vers:300", "ecdhe_ske", "hello_ext_sweep", "dev:big_record", "replay_deep:gmclient", "replay_deep:tlsclient", "replay_deep:gmserver", "replay_deep:tlsserver", "replay_deep:autoserver", "replay_control", "replay:omit_msg", "replay:hello_ext", "replay:swap_msgs", "hello_vector_lengths", "dev:cke_ciphertext_byte", "dev:cert_list", "omitted_client_certificate", "fallback_scsv", "tls_scripted_server:control", "tls_scripted_server:version_above_offer", "tls_scripted_server:deviations", "short_messages_after_hello", "serverhello_version_sweep", "tls_resumption_deviation", "dev:inner_len", "dev:trailing", "dev:alert_flood", "inner_length_sweep", "peer_pressed_on_after_alert", "endpoint:gmclient", "endpoint:gmserver", "endpoint:autoserver", "endpoint:tlsserver", "endpoint:tlsclient", "vers_sweep_done", "dev:omit", "dev:repeat", "dev:retype", "dev:reorder", "dev:truncate", "dev:len_field", "dev:split", "dev:coalesce",
+	R.Require("server_picks_unoffered_suite", "unoffered:control", "unoffered:refused", "client_stops_after_cke", "cke_sent_at:0300", "cke_sent_at:0301", "cke_sent_at:0302", "cke_sent_at:0303", "junk_certificate_verify", "jcv_vers:300", "ecdhe_ske", "hello_ext_sweep", "dev:big_record", "replay_deep:gmclient", "replay_deep:tlsclient", "replay_deep:gmserver", "replay_deep:tlsserver", "replay_deep:autoserver", "replay_control", "replay:omit_msg", "replay:hello_ext", "replay:swap_msgs", "hello_vector_lengths", "dev:cke_ciphertext_byte", "dev:cert_list", "omitted_client_certificate", "fallback_scsv", "tls_scripted_server:control", "tls_scripted_server:version_above_offer", "tls_scripted_server:deviations", "short_messages_after_hello", "serverhello_version_sweep", "tls_resumption_deviation", "dev:inner_len", "dev:trailing", "dev:alert_flood", "inner_length_sweep", "peer_pressed_on_after_alert", "endpoint:gmclient", "endpoint:gmserver", "endpoint:autoserver", "endpoint:tlsserver", "endpoint:tlsclient", "vers_sweep_done", "dev:omit", "dev:repeat", "dev:retype", "dev:reorder", "dev:truncate", "dev:len_field", "dev:split", "dev:coalesce",
 		"dev:oversize", "dev:ccs_early", "dev:appdata_early", "dev:alert_fatal", "dev:unknown_record", "dev:close", "dev:record_overflow", "replay_perturbed", "legal_must_succeed", "cke_1byte", "hostile_suites")
 	for d := 0; d <= 5; d++ {
 		R.Require(fmt.Sprintf("depth:%d", d))
@@ -1930,4 +1930,42 @@ func TestC15_ClientStopsAfterKeyExchange(t *testing.T) {
 		t.Fatalf("harness: only %d of %d scripted clients got as far as their ClientKeyExchange", reached, n)
 	}
 	R.Subspace("versions SSL 3.0..TLS 1.2 x 15 RSA / ECDHE-RSA suites x {TLS-only, auto-switch} server, client stops after a genuine ClientKeyExchange", int64(n), true)
+}
+
+// A server that answers with a cipher suite the client did NOT offer: the GMSSL client is restricted to one suite (or
+// two) by Config.CipherSuites, the keyed scripted server selects another suite the library knows - and otherwise plays a
+// flawless handshake for the suite it selected, to the end if it is let. The client must abort; a control with the
+// offered suite must complete.
+func TestC15_ServerPicksUnofferedSuite(t *testing.T) {
+	p := tlsx.GetPKI()
+	n := 0
+	for _, offered := range [][]uint16{{tlsx.GMECCSM4CBCSM3}, {tlsx.GMECCSM4GCMSM3}, {tlsx.GMECCSM4CBCSM3, tlsx.GMECCSM4GCMSM3}} {
+		for _, picked := range []uint16{tlsx.GMECCSM4CBCSM3, tlsx.GMECCSM4GCMSM3, 0xe011, 0xe051} {
+			n++
+			seed := fmt.Sprint("unoff", n)
+			cc := tlsx.GMClient(p, "c"+seed)
+			cc.CipherSuites = offered
+			so := rgmssl.ServerOpts{ID: p.ServerIdentity(), Echo: []byte("y")}
+			if picked == 0xe011 || picked == 0xe051 {
+				so.ECDHE = &rgmssl.ECDHEOpts{Suite: picked}
+			} else {
+				so.Suite = picked
+			}
+			wasOffered := false
+			for _, o := range offered {
+				wasOffered = wasOffered || o == picked
+			}
+			plan := &rgmssl.Plan{IgnoreAlerts: true}
+			r := tlsx.RunAgainstScriptedServer(cc, so, plan, seed, []byte("x"))
+			desc := fmt.Sprintf("GMSSL client offering %x, scripted server selects %04x | client: hs=%v | scripted server: err=%v log=%v", offered, picked, r.GM.HSErr, r.PeerErr, r.Peer.Log)
+			if r.Stalled {
+				t.Fatalf("the client keeps WAITING after a ServerHello that selects a suite it did not offer\n%s", desc)
+			}
+			judge(t, r, wasOffered, true, desc)
+			if wasOffered && r.GM.HSErr != nil {
+				t.Fatalf("control: the offered suite was refused\n%s", desc)
+			}
+			R.Case(true, hx.HashKey("unoff", offered, picked), "server_picks_unoffered_suite", map[bool]string{true: "unoffered:control", false: "unoffered:refused"}[wasOffered])
+		}
+	}
 }
